@@ -124,7 +124,7 @@ def lib_roundtrip(rng, res):
         os.makedirs("src")
         open("src/a.txt", "w").write("a %d\n" % rng.randrange(99))
         open("b.txt", "w").write("b\n")
-        mode = rng.choice(["run", "record", "record_with_args"])
+        mode = rng.choice(["run", "record", "record_with_args", "mock"])
         # library-only arguments of in_toto_record_stop
         stop_kw = {}
         if mode == "record_with_args":
@@ -139,7 +139,14 @@ def lib_roundtrip(rng, res):
             if os.path.exists("out.txt"):
                 os.remove("out.txt")
             with contextlib.redirect_stdout(io.StringIO()), contextlib.redirect_stderr(io.StringIO()):
-                if mode == "run":
+                if mode == "mock":
+                    # in_toto_mock: unsigned link <name>.link of a run that records the current directory
+                    rl.in_toto_mock("st", ["sh", "-c", "echo hi > out.txt; echo text"], use_dsse=dsse)
+                    os.rename("st.link", "st.%s.link" % k.keyid[:8])
+                    md0 = Metadata.load("st.%s.link" % k.keyid[:8])
+                    md0.create_signature(k.signer)      # (signed here only so that the common checks below apply)
+                    md0.dump("st.%s.link" % k.keyid[:8])
+                elif mode == "run":
                     md = rl.in_toto_run("st", ["."], ["."], ["sh", "-c", "echo hi > out.txt; echo text"],
                                         record_streams=True, signer=k.signer, use_dsse=dsse)
                 else:
